@@ -77,6 +77,7 @@ struct Model {
       case OP_PUSH_TRACER: return st.ntracer < NTRC;
       case OP_POP_TRACER: return st.ntracer > 0;
       case OP_SET_REPORTER: return true;
+      case OP_ARM_REPORTER: return st.armed == 0 && st.obj_alive[op.obj];
     }
     return false;
   }
@@ -280,6 +281,21 @@ struct Model {
     std::ostringstream d; d << "L=" << (int)e.lo << " c=" << (int)e.count;
     r.detail = d.str(); o.reps.push_back(r);
     e.reported = 1;
+    if (!r.optional) nonfatal_delivered(o);
+  }
+  void destroy_mock_inline(int obj, Outcome& o) {
+    st.obj_alive[obj] = 0;
+    for (int fn = 0; fn < NFN; ++fn) {
+      for (int s : active_list(obj, fn)) { eol_report(s, R_PENDING_DESTROYED, o); }
+      for (int s : saturated_list(obj, fn)) { eol_report(s, R_PENDING_DESTROYED, o); }
+    }
+    for (auto& e : st.e) if (e.alive && !e.is_monitor && e.obj == obj) e.hooked = 0;
+  }
+  // a non-fatal report has just been handed to the reporter: an armed reporter now destroys its mock object (once)
+  void nonfatal_delivered(Outcome& o) {
+    if (!st.armed) return;
+    int obj = st.armed - 1; st.armed = 0;
+    if (st.obj_alive[obj]) destroy_mock_inline(obj, o);
   }
 
   void observe(Outcome& o) const {
@@ -330,6 +346,7 @@ struct Model {
         if (e.is_monitor) {
           if (!e.died && st.wat_alive[e.obj] && e.hooked) {
             Report r; r.fatal = false; r.kind = R_STILL_ALIVE; r.slot = op.slot; r.gen = st.repgen; o.reps.push_back(r);
+            nonfatal_delivered(o);
           }
         } else {
           eol_report(op.slot, R_UNFULFILLED, o);
@@ -339,15 +356,8 @@ struct Model {
         break;
       }
       case OP_CALL: do_call(op.obj, op.fn, op.a1, op.a2, o, true); break;
-      case OP_DESTROY_MOCK: {
-        for (int fn = 0; fn < NFN; ++fn) {
-          for (int s : active_list(op.obj, fn)) { eol_report(s, R_PENDING_DESTROYED, o); }
-          for (int s : saturated_list(op.obj, fn)) { eol_report(s, R_PENDING_DESTROYED, o); }
-        }
-        for (auto& e : st.e) if (e.alive && !e.is_monitor && e.obj == op.obj) e.hooked = 0;
-        st.obj_alive[op.obj] = 0;
-        break;
-      }
+      case OP_DESTROY_MOCK: destroy_mock_inline(op.obj, o); break;
+      case OP_ARM_REPORTER: st.armed = (uint8_t)(1 + op.obj); break;
       case OP_MOVE_MOCK: {
         for (auto& e : st.e) if (e.alive && !e.is_monitor && e.hooked && e.obj == op.obj) e.obj = (uint8_t)op.k1;
         st.obj_alive[op.k1] = 1;
@@ -360,6 +370,8 @@ struct Model {
           std::ostringstream d; d << '[';
           for (int j = 0; j < s.n; ++j) d << (int)s.pend[j] << ',';
           d << ']'; r.detail = d.str(); o.reps.push_back(r);
+          s.alive = 0; s.n = 0; for (auto& p : s.pend) p = -1;
+          nonfatal_delivered(o);
         }
         for (auto& e : st.e) if (e.alive && in_seq(e, op.s1)) e.orphan |= (uint8_t)(1u << op.s1);
         s.alive = 0; s.n = 0; for (auto& p : s.pend) p = -1;
@@ -374,6 +386,7 @@ struct Model {
         for (int i = 0; i < NSLOT; ++i) { auto& e = st.e[i]; if (e.alive && e.is_monitor && e.obj == op.obj && !e.died && e.hooked) mons.push_back(i); }
         if (mons.empty()) {
           Report r; r.fatal = false; r.kind = R_UNEXPECTED_DESTRUCTION; r.slot = -1; r.gen = st.repgen; o.reps.push_back(r);
+          nonfatal_delivered(o);
         }
         std::sort(mons.begin(), mons.end(), [&](int a, int b) { return st.e[a].birth > st.e[b].birth; });
         for (int m : mons) {
@@ -387,6 +400,7 @@ struct Model {
             }
             if (cost_in(m, e.seqs[i]) < 0) {
               Report r; r.fatal = false; r.kind = R_SEQMIS; r.slot = m; r.gen = st.repgen; o.reps.push_back(r); named = true;
+              nonfatal_delivered(o);
             }
           }
           if (named) soft_name_around(m);
